@@ -230,4 +230,33 @@ def ctlValid (i : Nat) : Bool → List COp → Bool
   | reg, .unreg k :: cs => if k = i then reg && ctlValid i false cs else ctlValid i reg cs
   | reg, .reg k :: cs => if k = i then !reg && ctlValid i true cs else ctlValid i reg cs
 
+/-- the lives of the join with index `i` in a history: the routed calls made between one
+(re-)registration of the join and its next unregistration (or the end of the history), oldest
+life first; `reg` = registered now, `cur` = the calls of the current life so far, newest first.
+(`register_join` of an id that is still registered — excluded by `ctlValid` — ends the current
+life here as well.) -/
+def livesOf (i : Nat) : Bool → List JOp → List COp → List (List JOp)
+  | reg, cur, [] => if reg then [cur.reverse] else []
+  | reg, cur, .op m :: cs => if reg then livesOf i true (m :: cur) cs else livesOf i false [] cs
+  | reg, cur, .unreg k :: cs =>
+    if k = i then (if reg then [cur.reverse] else []) ++ livesOf i false [] cs else livesOf i reg cur cs
+  | reg, cur, .reg k :: cs =>
+    if k = i then (if reg then [cur.reverse] else []) ++ livesOf i true [] cs else livesOf i reg cur cs
+
+/-- well-formedness of a history with control calls, for the joins `js` numbered from `n`:
+**within every life of every join**, event ids are unique within each stream the join consumes
+(the same id may be used again in another life of the join) -/
+def WFC (n : Nat) (js : List JoinDef) (cs : List COp) : Prop :=
+  ∀ x ∈ idxFrom n js, ∀ life ∈ livesOf x.1 true [] cs, WF (joinOps x.2 life)
+
+instance (n : Nat) (js : List JoinDef) (cs : List COp) : Decidable (WFC n js cs) := by
+  unfold WFC; exact inferInstance
+
+/-- the routed calls of a history with control calls (what the driver checks for unique ids) -/
+def opOf : COp → Option JOp
+  | .op m => some m
+  | _ => none
+
+def opsOf (cs : List COp) : List JOp := cs.filterMap opOf
+
 end C14
